@@ -331,7 +331,8 @@ class InMemoryPersister(Persister):
         self._checkpoints.setdefault(process.pid, {})[tag] = Bundle(process, self._save_context, dereference=True)
 
     def load_checkpoint(self, pid: PID_TYPE, tag: Optional[str] = None) -> Bundle:
-        return self._checkpoints[pid][tag]
+        # hand out a copy: the loaded process shares mutable members with the bundle it is recreated from
+        return copy.deepcopy(self._checkpoints[pid][tag])
 
     def get_checkpoints(self) -> List[PersistedCheckpoint]:
         cps = []
